@@ -218,7 +218,10 @@ def main(argv=None):
                                   "searched_evaluations": ctx.evaluations}, "tie")
         lines.append(f"VIOLATION property={pid} replay={path} no-failing-input-found")
     wall = time.time() - t0
-    if not args.no_lean:   # development runs without the Lean stage never write evidence
+    on_repo = os.path.realpath(os.environ.get("QVERIF_REPO", "/repo")) == os.path.realpath("/repo")
+    if not args.no_lean and on_repo:
+        # development runs without the Lean stage, and runs against a scratch tree (seeded
+        # changes), never write evidence: evidence comes from /repo itself
         write_evidence(ctx, mod, lean, violations, wall)
     print(f"[{pid}] tier={tier} seed={seed} obligations={len(lean['obligations'])} discharged={len(lean['discharged'])} "
           f"evaluations={ctx.evaluations} distinct_nontrivial={len(ctx.nontrivial)} disagreements={len(ctx.disagreements)} "
